@@ -726,7 +726,8 @@ namespace plan
     {
         const char *name;
         std::function<ob::PlannerPtr(const ob::SpaceInformationPtr &)> make;
-        bool strictRecheck;   // builds paths from individually validated state-to-state motions
+        bool strictRecheck;   // builds paths from individually validated state-to-state motions (not: PDST-style splitters, the
+                              // "intermediate states" variants whose vertices are interpolated along a validated motion, multilevel, APS)
         bool bidirectional;
         bool directedOk;      // may be used on Dubins (directed single-tree growth from the start)
         bool optimizing;
@@ -788,9 +789,9 @@ namespace plan
         //                name            make                     strict bidir  directed optim threaded budget deferred multi sampleable
         static const std::vector<PlannerInfo> R = {
             {"RRT", mk<og::RRT>, true, false, true, false, false, 1, false, false, false},
-            {"RRT(intermediate)", mkRRTi, true, false, true, false, false, 1, false, false, false},
+            {"RRT(intermediate)", mkRRTi, false, false, true, false, false, 1, false, false, false},
             {"RRTConnect", mk<og::RRTConnect>, true, true, false, false, false, 1, false, false, true},
-            {"RRTConnect(intermediate)", mkRRTCi, true, true, false, false, false, 1, false, false, true},
+            {"RRTConnect(intermediate)", mkRRTCi, false, true, false, false, false, 1, false, false, true},
             {"RRTstar", mk<og::RRTstar>, true, false, false, true, false, 0.5, false, false, false},
             {"InformedRRTstar", mk<og::InformedRRTstar>, true, false, false, true, false, 0.5, false, false, false},
             {"SORRTstar", mk<og::SORRTstar>, true, false, false, true, false, 0.5, false, false, false},
